@@ -103,8 +103,8 @@ func runCase(c Case) (st stats, err error) {
 		st.partial = n < len(frames) && (n == 0 && c.Cut > 0 || n > 0 && c.Cut > ends[n-1])
 	}
 	want := wsref.ReceiveExt(model, c.Server, c.Limit, c.Compress)
-	if want.BadDeflate {
-		return st, nil // outside the model
+	if want.BadDeflate || want.InflatedOverLimit {
+		return st, nil // outside the model / not fixed by the statement
 	}
 	st.event, st.frames = want.Event, len(model)
 	st.delivered, st.pongs = len(want.Delivered), len(want.Pongs)
